@@ -30,6 +30,10 @@ if [ "$mode" = all ]; then
   one C11_4 C11 "bounded.race#detector-silent" yes
   one C08_3 C08 "bounded.icc#delivery.same-success-or-error" yes
   one C17_4 C17 "bounded.icc#description.is-the-declared-string" yes
+  one C07_5 C07 "webpmeta.Load#post:replays-input" yes
+  one C20_5 C20 "TransformToXYZForXYYPrimaries#post:red-chromaticity" yes
+  one C09_5 C09 "parseMultiLocalisedUnicode#bounds" yes
+  one C04_5 C04 "adobergb.Color.ToNRGBA#post:channels" yes
 fi
 # the unchanged tree must stay quiet
 for p in C16 C13; do
